@@ -187,33 +187,45 @@ theorem Deatanhe_dd_oblate (es x y : ℝ) (hes : 0 < es) (hx : |es * x| < 1) (hy
   have h2 : x - y ≠ 0 := sub_ne_zero.mpr hxy
   unfold Deatanhe eatanhe
   simp only [eqb_real, ltb_real, zero_real, one_real, atanh_real, h2, hes, decide_false, decide_true, Bool.not_false, if_true]
-  have earg : es * ((x - y) / (1 - es ^ 2 * x * y)) = (es * x - es * y) / (1 - es * x * (es * y)) := by
-    have : 1 - es ^ 2 * x * y = 1 - es * x * (es * y) := by ring
-    rw [this]; ring
-  rw [earg, atanh_sub (es * x) (es * y) hx hy]
-  ring
+  by_cases hneg : x * y < 0
+  · simp only [hneg, decide_true, if_true]
+  · simp only [hneg, decide_false, Bool.false_eq_true, if_false]
+    have earg : es * ((x - y) / (1 - es ^ 2 * x * y)) = (es * x - es * y) / (1 - es * x * (es * y)) := by
+      have : 1 - es ^ 2 * x * y = 1 - es * x * (es * y) := by ring
+      rw [this]; ring
+    rw [earg, atanh_sub (es * x) (es * y) hx hy]
+    ring
 
-/-- `Deatanhe` (prolate, `es = −√(−e²) ≤ 0`, `_e2 = −es²`) is the divided difference of `x ↦ −es·atan(es x)` where
-    `(es x)(es y) > −1` -/
-theorem Deatanhe_dd_prolate (es x y : ℝ) (hes : es ≤ 0) (hprod : -1 < es * x * (es * y)) (hxy : x ≠ y) :
+/-- `Deatanhe` (prolate or spherical, `es = −√(−e²) ≤ 0`, `_e2 = −es²`) is the divided difference of `x ↦ −es·atan(es x)` for **every** pair
+    `x ≠ y`: since 36a144d the code takes the straight difference when `x·y < 0`, and for `x·y ≥ 0` the addition formula of the arctangent
+    is on its principal branch -/
+theorem Deatanhe_dd_prolate (es x y : ℝ) (hes : es ≤ 0) (hxy : x ≠ y) :
     Deatanhe (-(es ^ 2)) es x y = (eatanhe x es - eatanhe y es) / (x - y) := by
   have h2 : x - y ≠ 0 := sub_ne_zero.mpr hxy
   have hn : ¬ (0 < es) := not_lt.mpr hes
   unfold Deatanhe eatanhe
   simp only [eqb_real, ltb_real, zero_real, one_real, atan_real, h2, hn, decide_false, Bool.not_false, if_true,
     Bool.false_eq_true, if_false]
-  have hadd : Real.arctan (es * x) - Real.arctan (es * y) = Real.arctan ((es * x - es * y) / (1 + es * x * (es * y))) := by
-    have h := Real.arctan_add (x := es * x) (y := -(es * y)) (by nlinarith)
-    rw [Real.arctan_neg] at h
-    have e : (es * x + -(es * y)) / (1 - es * x * -(es * y)) = (es * x - es * y) / (1 + es * x * (es * y)) := by
-      congr 1 <;> ring
-    rw [e] at h
-    linarith
-  have earg : es * ((x - y) / (1 - -(es ^ 2) * x * y)) = (es * x - es * y) / (1 + es * x * (es * y)) := by
-    have : 1 - -(es ^ 2) * x * y = 1 + es * x * (es * y) := by ring
-    rw [this]; ring
-  rw [earg, ← hadd]
-  ring
+  by_cases hneg : x * y < 0
+  · simp only [hneg, decide_true, if_true]
+  · simp only [hneg, decide_false, Bool.false_eq_true, if_false]
+    have hnn : 0 ≤ x * y := not_lt.mp hneg
+    have hprod : -1 < es * x * (es * y) := by
+      have : es * x * (es * y) = es ^ 2 * (x * y) := by ring
+      rw [this]; have : 0 ≤ es ^ 2 * (x * y) := by positivity
+      linarith
+    have hadd : Real.arctan (es * x) - Real.arctan (es * y) = Real.arctan ((es * x - es * y) / (1 + es * x * (es * y))) := by
+      have h := Real.arctan_add (x := es * x) (y := -(es * y)) (by nlinarith)
+      rw [Real.arctan_neg] at h
+      have e : (es * x + -(es * y)) / (1 - es * x * -(es * y)) = (es * x - es * y) / (1 + es * x * (es * y)) := by
+        congr 1 <;> ring
+      rw [e] at h
+      linarith
+    have earg : es * ((x - y) / (1 - -(es ^ 2) * x * y)) = (es * x - es * y) / (1 + es * x * (es * y)) := by
+      have : 1 - -(es ^ 2) * x * y = 1 + es * x * (es * y) := by ring
+      rw [this]; ring
+    rw [earg, ← hadd]
+    ring
 
 /-- the coded `dpsi` of `Forward` is `ψ − ψ0` -/
 theorem lcc_dpsi (tchi tchi0 : ℝ) :
